@@ -133,6 +133,7 @@ type Store struct {
 	opSeq       uint64
 	released    bool
 	holdCond    *sync.Cond
+	hook        atomic.Value // func(k Kind, write bool, gid int64): called at every store call, outside the monitor's lock
 	ForeignHeld uint64 // foreign write transactions held back (evidence)
 	ForeignTx   uint64 // transactions begun by a goroutine other than the driver
 }
@@ -257,10 +258,26 @@ func (s *Store) FailNextCommit() { s.mu.Lock(); s.failCommit = true; s.mu.Unlock
 // DisarmFailCommit withdraws a FailNextCommit that was not consumed.
 func (s *Store) DisarmFailCommit() { s.mu.Lock(); s.failCommit = false; s.mu.Unlock() }
 
+// SetHook installs (or, with nil, removes) a function called at every store call of a transaction, before the
+// call is forwarded: engines use it to hold one goroutine at a chosen call while another one proceeds (a forced,
+// legal interleaving).
+func (s *Store) SetHook(f func(k Kind, write bool, gid int64)) {
+	if f == nil {
+		f = func(Kind, bool, int64) {}
+	}
+	s.hook.Store(f)
+}
+
+// Goid returns the id of the calling goroutine.
+func Goid() int64 { return goid() }
+
 // call is invoked at every store call. It returns an error to inject.
 func (s *Store) call(k Kind, tx *Tx, class string) error {
 	atomic.AddUint64(&s.totalCalls, 1)
 	s.maybePerturb()
+	if h, _ := s.hook.Load().(func(Kind, bool, int64)); h != nil && tx != nil {
+		h(k, tx.write, goid())
+	}
 	s.mu.Lock()
 	defer s.mu.Unlock()
 	var err error
